@@ -293,9 +293,17 @@ func verifHarnessCrash() {
 	verifAssert(match, id+".not-a-prefix")
 	verifAssert(db2.Stat().KeyNum == len(db2.ListKeys()), id+".keynum-vs-listkeys")
 	if verifParam("after") == 1 {
-		// the recovered database keeps working: one more put, clean restart, same mapping
+		// the recovered database keeps working: one more put (or a committed batch), clean restart, same mapping
 		v := []byte{9}
-		verifAssert(db2.Put(kp.keys[0], v) == nil, id+".put-after-recovery-err")
+		if verifParam("afterbatch") == 1 {
+			// a later batch must not revive anything of an interrupted earlier one
+			b := db2.NewBatch(DefaultBatchOptions)
+			verifAssert(b.Put(kp.keys[len(kp.keys)-1], v) == nil, id+".bput-after-recovery-err")
+			verifAssert(b.Commit() == nil, id+".commit-after-recovery-err")
+			verifReach("batch-after-recovery")
+		} else {
+			verifAssert(db2.Put(kp.keys[0], v) == nil, id+".put-after-recovery-err")
+		}
 		d1 := vDump(db2, kp)
 		verifAssert(db2.Close() == nil, id+".close-after-recovery-err")
 		db3, err := Open(opts)
